@@ -101,8 +101,8 @@ class C16(core.Check):
     )
     assumptions = [
         "the driver's distance oracle is a double-precision sqrt of the exact squared distance, re-checked |w^2-x| <= 1e-12(1+x)",
-        "the segment-additivity hypothesis of T_C16_linear_length is discharged for one knot interval (T_C16_segment_metric); "
-        "that scipy's interp1d selects that interval is validated by correspondence",
+        "T_C16_linear_exact is a theorem about the model (lerp over chord-length knots, exact distances); "
+        "that scipy interp1d / numpy cumsum compute the same is validated by correspondence (c16.ipoint, c16.ilen at 1e-9)",
         "spline interpolation (scipy make_interp_spline) and scipy.optimize.minimize are oracles: only checked on the "
         "implementation (through points, closest parameter vs. a 1000-point scan, tolerance 1e-6)",
         "queries for the closest parameter are near the curve (within 5% of the local spacing), away from the seam of closed curves",
